@@ -53,6 +53,14 @@ const char* const OTYPES[3] = {"T", "U", "V"};   // T, U: comparator and copier 
 const char* const DTYPES[] = {"T", "MyType", "int", "unsigned int", "long int", "unsigned long int", "long long int", "unsigned long long int",
                               "double", "const char*", "void*", "const void*", "void (*)()", "const unsigned char*", "bool", "MockSupport"};
 
+// further custom type names, used wherever a custom type name occurs (data-store objects, parameters of type, output parameters of
+// type, comparator / copier installation): names that have a built-in type name as a proper prefix, names that are a proper prefix
+// of one, names that differ from one only in case or spacing, and the empty name.  All of them are OBJECT types for both interfaces.
+const char* const XTYPES[] = {"int32_t", "intptr", "const char**", "void**", "double_vec3", "bool_flags", "unsigned int*", "long int long", "const void*const",
+                              "cons", "unsigned", "long", "const unsigned char", "Int", "const  char*", "", "void (*)()x", "long long int64", "unsigned long int ",
+                              "const unsigned char*[]", "unsigned long long int*", "boolean", "in"};
+const size_t N_XTYPES = sizeof XTYPES / sizeof XTYPES[0];
+
 const long long BOOLS[] = {0, 1, 2, -1, 256, INT_MIN};
 const long long INTS[] = {0, 1, -1, 2, 127, 255, 256, 65535, INT_MAX, INT_MIN, INT_MAX - 1, -2};
 const unsigned long long UINTS[] = {0, 1, 2, 255, 65536, (unsigned)INT_MAX, (unsigned)INT_MAX + 1u, UINT_MAX, UINT_MAX - 1};
@@ -172,6 +180,12 @@ std::string val_str(const Val& v) {
     }
 }
 
+// one byte: values below 128 select from the pool the earlier decoder versions used (same index as before), the others from XTYPES
+const char* pick_type(Reader& r, const char* const* old, size_t nold) {
+    uint32_t b = r.below(256);
+    return b < 128 ? old[b % nold] : XTYPES[(b - 128) % N_XTYPES];
+}
+
 Val gen_val(Reader& r, VT t) {
     Val v; v.t = t;
     bool rnd = r.below(8) == 7;
@@ -186,7 +200,7 @@ Val gen_val(Reader& r, VT t) {
     case T_PTR: case T_CPTR: v.p = r.pick(PTRS); break;
     case T_FPTR: v.fp = r.pick(FPTRS); break;
     case T_MEMBUF: { const MemBuf& m = r.pick(MEMBUFS); v.mb = m.p; v.mbn = m.n; break; }
-    case T_OBJ: v.otype = OTYPES[r.below(8) == 7 ? 2 : r.below(2)]; v.obj = r.pick(OBJP); break;
+    case T_OBJ: v.otype = r.below(8) == 7 ? OTYPES[2] : pick_type(r, OTYPES, 2); v.obj = r.pick(OBJP); break;
     default: break;
     }
     return v;
@@ -416,7 +430,7 @@ void gen_free(Reader& r, std::vector<Stmt>& out, int nearScope) {
         static const VT dt[8] = {T_BOOL, T_INT, T_UINT, T_STRING, T_DOUBLE, T_PTR, T_CPTR, T_FPTR};
         if (s.dkind < 8) s.v = gen_val(r, dt[s.dkind]);
         else {
-            s.v.t = T_OBJ; s.v.otype = r.pick(DTYPES);
+            s.v.t = T_OBJ; s.v.otype = pick_type(r, DTYPES, sizeof DTYPES / sizeof DTYPES[0]);
             // a "bool" object is read back through a bool lvalue: only 0 / 1 are valid object representations
             s.v.obj = strcmp(s.v.otype, "bool") == 0 ? (const void*)(uintptr_t)r.below(2) : (r.flag() ? (const void*)r.pick(PTRS) : r.pick(OBJP));
         }
@@ -441,8 +455,8 @@ void gen_free(Reader& r, std::vector<Stmt>& out, int nearScope) {
         out.push_back(a);
         break; }
     case 6: { Stmt s = simple(OP_CRASH, sc); s.flag = r.below(4) == 1; out.push_back(s); break; }
-    case 7: { Stmt s = simple(OP_INST_CMP, sc, OTYPES[r.below(2)]); s.fset = (uint8_t)r.below(N_FSETS); out.push_back(s); break; }
-    case 8: { Stmt s = simple(OP_INST_COPY, sc, OTYPES[r.below(2)]); s.fset = (uint8_t)r.below(N_FSETS); out.push_back(s); break; }
+    case 7: { Stmt s = simple(OP_INST_CMP, sc, pick_type(r, OTYPES, 2)); s.fset = (uint8_t)r.below(N_FSETS); out.push_back(s); break; }
+    case 8: { Stmt s = simple(OP_INST_COPY, sc, pick_type(r, OTYPES, 2)); s.fset = (uint8_t)r.below(N_FSETS); out.push_back(s); break; }
     case 9: out.push_back(simple(OP_REMOVE_ALL, r.below(4) == 1 ? gen_scope(r) : 0)); break;
     case 10: out.push_back(simple(OP_CHECK, sc)); break;
     case 11: out.push_back(simple(OP_CLEAR, r.below(4) == 1 ? 0 : (sc ? sc : 1))); break;
